@@ -321,7 +321,7 @@ SubStep(st, fr) ==
          Push(AddNode(st, [Node("group_by", n) EXCEPT !.a = PA(x)]), <<Sub(S1(x), id)>>)
     [] o = "start_with" -> Push(st, CallNs(n, PL(x)) \o <<Sub(S1(x), n)>>)
     [] o = "finalize" ->          \* callback cell id, observer id+1
-         LET st1 == AddNode(AddNode(st, [Node("fincell", 0) EXCEPT !.m = md, !.b = PB(x)]),
+         LET st1 == AddNode(AddNode(st, [Node("fincell", 0) EXCEPT !.m = md, !.b = PB(x), !.a = PA(x), !.v = PV(x)]),
                             [Node("finobs", n) EXCEPT !.c = id]) IN
          Push(st1, <<Sub(S1(x), id + 1), F1("mkfin", id)>>)
     [] o = "to_future" \/ o = "to_stream" ->     \* subscribe the channel observer; the subscription is dropped
